@@ -6,6 +6,7 @@
 //     unsynchronised fields,
 //   - x/sync/errgroup is replaced by a copy that spawns through vsched.Go,
 //   - export files (package-private access for the harness) are added.
+//
 // The copies are regenerated from /repo's current working tree on every run.
 package main
 
